@@ -463,3 +463,32 @@ impl PartialEq<rt::rwlock::Action> for Action {
         *self == other
     }
 }
+
+#[cfg(feature = "verif-hooks")]
+impl Operation {
+    pub(crate) fn verif_dump(&self) -> String {
+        format!("{}:{:?}", self.obj.index, self.action)
+    }
+}
+
+#[cfg(feature = "verif-hooks")]
+impl Store {
+    pub(crate) fn verif_dump(&self) -> String {
+        let mut out = Vec::new();
+        for (index, entry) in self.entries.iter().enumerate() {
+            let s = match entry {
+                Entry::Alloc(e) => e.verif_dump(),
+                Entry::Arc(e) => e.verif_dump(),
+                Entry::Atomic(e) => e.verif_dump(),
+                Entry::Mutex(e) => e.verif_dump(),
+                Entry::Condvar(e) => e.verif_dump(),
+                Entry::Notify(e) => e.verif_dump(),
+                Entry::RwLock(e) => e.verif_dump(),
+                Entry::Channel(e) => e.verif_dump(),
+                Entry::Cell(e) => e.verif_dump(),
+            };
+            out.push(format!("{} {}", index, s));
+        }
+        out.join("\n")
+    }
+}
